@@ -110,6 +110,17 @@ class _Shim:
 
 
 def run_shard(ctx):
+    try:
+        _run_shard(ctx)
+    finally:
+        # the wrapping section datatypes of the family load a schema and a
+        # configuration of their own while the outer load is in progress
+        import zcverif_dt.fam
+        ctx.res.hook("nested_loads_from_datatypes",
+                     zcverif_dt.fam.REENTRIES[0])
+
+
+def _run_shard(ctx):
     rng = ctx.rng("entries")
     for p in cc.pairs(ctx, N_MODELS[ctx.tier], TEXTS[ctx.tier]):
         judge(ctx, p, rng)
